@@ -220,6 +220,48 @@ fn do_span(f: &[&str]) -> String {
 
 // ---- C17: the plain-output guard, the source cache under contention, the renderer choice ----
 
+fn do_fshist(f: &[&str]) -> String {
+    // fshist <xsrc> <ops> ls cs le ce     one process, one source file whose content (when it can be read) is always <src>:
+    //   W = the file is there (written with <src>), D = the file cannot be read (removed), R = a failure in that file is reported,
+    //   T = the next R happens on another thread.  Prints the message of every R (hex), in order.
+    let src = unhex(f[1]);
+    let q: Vec<u32> = f[3..7].iter().map(|x| x.parse().unwrap()).collect();
+    let dir = tmpdir();
+    let path = dir.join("hist_src.rs");
+    let _ = std::fs::remove_file(&path);
+    verif::clear_source_cache();
+    let _guard = PlainOutputGuard::new();
+    let mut out: Vec<String> = Vec::new();
+    let mut other_thread = false;
+    for o in f[2].chars() {
+        match o {
+            'W' => std::fs::write(&path, &src).unwrap(),
+            'D' => { let _ = std::fs::remove_file(&path); }
+            'T' => other_thread = true,
+            'R' => {
+                let d = dir.to_str().unwrap().to_string();
+                let qq = q.clone();
+                let one = move || {
+                    let _g = PlainOutputGuard::new();
+                    let mut report = ErrorReport::new(&d, "hist_src.rs");
+                    report.push(node(NodeKind::Wildcard, (qq[0], qq[1], qq[2], qq[3])), "ACTUAL".into(), None);
+                    match std::panic::catch_unwind(std::panic::AssertUnwindSafe(|| format!("{}", report))) {
+                        Ok(t) => hex(t.as_bytes()),
+                        Err(_) => "PANIC".to_string(),
+                    }
+                };
+                let m = if other_thread { std::thread::spawn(one).join().unwrap_or_else(|_| "PANIC".into()) } else { one() };
+                other_thread = false;
+                out.push(m);
+            }
+            c => panic!("fshist op {c}"),
+        }
+    }
+    let _ = std::fs::remove_file(&path);
+    let _ = verif::take_spans();
+    out.join(" ")
+}
+
 fn do_guard(f: &[&str]) -> String {
     // guard <ops>   N = create a guard, D = drop the newest live guard, F = drop the oldest live guard.
     // Prints the thread's plain-output flag after every operation.  Runs on a fresh thread so
@@ -495,6 +537,7 @@ fn main() {
             "span" => do_span(&f),
             "mspan" => do_mspan(&f),
             "guard" => do_guard(&f),
+            "fshist" => do_fshist(&f),
             "contend" => do_contend(&f),
             "colour" => do_colour(&f),
             "crossdir" => do_crossdir(&f),
